@@ -585,8 +585,15 @@ struct Called {
 fn call_rule(rule: &str, g: &dyn Fn(f64) -> (f64, f64), a: f64, b: f64, n: usize, eps: f64) -> Result<Called, String> {
     let cnt = Cell::new(0u64);
     let mx = Cell::new(0.0f64);
+    // The integrand handed to the library exists on the interval of integration only: outside [min(a,b), max(a,b)]
+    // it is NaN (as x²√x is left of 0). A rule for the integral over [a,b] has no business evaluating elsewhere — a
+    // node recomputed as a + n·((b−a)/n) may land one ulp beyond b.
+    let (lo, hi) = (a.min(b), a.max(b));
     let h = |x: f64| {
         cnt.set(cnt.get() + 1);
+        if x < lo || x > hi {
+            return f64::NAN;
+        }
         let (v, m) = g(x);
         if m > mx.get() || m.is_nan() {
             mx.set(m);
@@ -1399,6 +1406,7 @@ Non-trivial: degree >= 1 or non-polynomial integrand, and a != b; distinct by (s
         .into();
     ctx.assumptions = vec![
         "the rules evaluate the integrand only through the closure; N = number of closure calls is measured and every rounding allowance is proportional to it".into(),
+        "the closure is NaN outside the closed interval of integration: a rule must take all its nodes inside [min(a,b), max(a,b)] (an integrand need not exist elsewhere)".into(),
         "rounding allowance for polynomials: 8(N+4deg+16) eps |b-a| sum|c_j|M^j; for catalogue members 64 N eps |b-a| (max|f| + 8(M+shift) max|f'|) with rigorous upper bounds from f, f', max|f''|".into(),
         "max|f''| on the interval is computed from closed-form f'' at the end-points and at the known zeros of f''' (self-tested against dense sampling at start-up)".into(),
         "romberg/tolerance domain: catalogue members on intervals with at most one interior extremum (half a period for trigonometric members) and no longer than twice the local smoothness scale at both ends; aliasing of adaptive stopping on unresolved integrands is outside the statement (DESIGN section 4/5)".into(),
